@@ -207,6 +207,8 @@ class Interp(object):
 
     def st_Task(self, name, st, data, branch):
         def body():
+            if str(st.get("Resource")).endswith(".waitForTaskToken"):
+                raise Unjudged("task-token callbacks are outside the reference interpreter (judged by M-child / M-time)")
             inp = self.path(data, st.get("InputPath", "$"))
             params = self.template(st.get("Parameters"), inp)
             t0 = self.clock
